@@ -84,6 +84,7 @@ def pCmd : Nat → List Str → Option (Cmd × List Str)
         if o = ['e'] then some (.setOpt .errexit (v = ['1']), r)
         else if o = ['p'] then some (.setOpt .pipefail (v = ['1']), r)
         else if o = ['i'] then some (.setOpt .inheritErrexit (v = ['1']), r)
+        else if o = ['l'] then some (.setOpt .lastpipe (v = ['1']), r)
         else none
       | _ => none
     else if k = "Fa" then
